@@ -16,6 +16,18 @@ CLAIMS = {
  "C04": dict(
     text="Proof (Verus) that emit_line_unchanged flushes and then writes exactly format_raw_line(raw_line) followed by a newline, that format_raw_line is the identity unless hyperlinks are on and stdout is a tty, and of the 'decline' facet of the handlers under contract (predicate false => Ok(false), nothing written, state unchanged).",
     note=_COMMON_NOTE + " Conditional on 'no handler's predicate holds' (regex semantics are not modelled)."),
+ "C08": dict(
+    text="Proof (Verus) of the relation that decides whether an input line carries 'something other than git's plain colour': ansi_term_style_equality is exactly 'all eight attributes equal and both colours equal up to the named/0-7 identification' (reflexive, symmetric), the equality key agrees with it, Style::is_applied_to and line_has_style_other_than compose it as stated.",
+    note=_COMMON_NOTE + " The two-run relation (coloured vs plain input give the same output) is not decided; escape-sequence stripping and the SGR parser are assumed (first_style_spec uninterpreted)."),
+ "C09": dict(
+    text="Proof (Verus) that format_osc8_hyperlink returns opener + text + closer in one string (every link that is opened is closed on the same line, the text between is unchanged).",
+    note=_COMMON_NOTE + " ansi_term's Display (reset after every painted run) is assumed, not verified; truncation (truncate_str_impl) and the background fill are not yet under contract."),
+ "C17": dict(
+    text="Proof (Verus) of the colour rules of the real get_color/get_next_color: a repeated attribution gets the colour recorded for it, a line attributed differently from its predecessor never gets the predecessor's colour (palette of >= 2 distinct entries), a reappearing attribution keeps its colour unless that collides with the line above; no division by zero, no unreachable arm.",
+    note=_COMMON_NOTE + " Assumed: String obeys vstd's hash-table key model, a borrowed key maps to at most one value, the palette is non-empty (Config::from exits otherwise). The blame regex and chrono are not modelled."),
+ "C19": dict(
+    text="Proof (Verus) that a file hyperlink is osc8(url, text) with url = link format with {path} <- the given path, {host} <- hostname, {line} <- the decimal of exactly the line number passed (or empty), and that the OSC 8 wrapper leaves the text unchanged between opener and closer.",
+    note=_COMMON_NOTE + " str::replace is uninterpreted; layout transparency (widths ignore OSC sequences) is a two-run relation and is not decided."),
  "C10": dict(
     text="Proof (Verus) of the reset contract of handle_diff_header_diff_line (per-file fields become functions of the current line, nothing stays buffered, pending header and mode info are consumed), of OD at the section boundary, and that file-header writers consume mode_info.",
     note=_COMMON_NOTE + " The concatenation theorem over whole runs is not decided; determinism of hash-ordered iterations is handled by the fixes recorded in known-findings.txt."),
@@ -27,7 +39,7 @@ CLAIMS = {
     note=_COMMON_NOTE + " Exact header counts over whole histories and box drawing are not decided."),
 }
 _NOT_YET = "check not built yet in this session (planned, see DESIGN.md section 4)"
-NA = {p: _NOT_YET for p in ["C02","C06","C07","C08","C09","C12","C13","C15","C16","C17","C19","C20"]}
+NA = {p: _NOT_YET for p in ["C02","C06","C07","C12","C13","C15","C16","C20"]}
 NA["C18"] = "quantifies over OS-level fault sequences, child exit statuses and pager selection (run_app / OutputType::try_pager: Command::spawn, wait, process::exit); neither installed deductive verifier has a model of these and no function with a meaningful contract can be separated without refactoring unguarded source (DESIGN.md section 5)"
 for _p in CLAIMS:
     CLAIMS[_p].setdefault("technique", _V)
